@@ -139,6 +139,18 @@ class SlotMapV(object):
         self.num_elems = 0
 
 
+class TyEnvTag(object):
+    """hidden last field of a closure environment: the generic-parameter bindings of the frame that CREATED the closure (a closure
+    body names the generics of its defining function, whoever calls it)"""
+    __slots__ = ('env',)
+
+    def __init__(self, env):
+        self.env = env
+
+    def __repr__(self):
+        return '<tyenv>'
+
+
 class Opaque(object):
     __slots__ = ('what',)
 
